@@ -13,7 +13,8 @@ claim(
     "non-empty and empty node) and, for Minimize/Maximize, as equality of decision tables; the leaf merge formulas composed "
     "with themselves are associative ((a+b)+c == a+(b+c) as rational functions of the nine operand fields); children of "
     "key-addressed collections are paired by key, never by position; combining with += keeps the receiver (shared rule of "
-    "C07); defs.combine/increment. Necessary conditions of the property; data-dependent key sets under fill and "
+    "C07); a + b, += and zero() of partials reloaded from JSON keep what only ed() establishes (shared rule of C04); "
+    "defs.combine/increment. Necessary conditions of the property; data-dependent key sets under fill and "
     "floating-point rounding are NOT decided.",
     "Identities are over the reals; formula extraction follows the branch selected by the stated scenario (finite datum, "
     "empty/non-empty operands); an unsupported construct is ANALYSIS-ERROR, never a pass.",
@@ -29,7 +30,9 @@ claim(
     "specialised `name` properties, fields established only by ed() surviving zero/+/* of a reloaded container with no slot "
     "left None, no JSON-keyed dict splatted into named parameters, numbers stored into serialised fields by _numpy passing "
     "through float()/int() (numpy integer/float32 scalars are not JSON-serialisable), and Bag's reader normalising numeric "
-    "keys with the same function as the filling path. Bit-exact float text and equality of reloaded "
+    "keys with the same function as the filling path, a child's name suppression being a constant that matches what the reader "
+    "passes as nameFromParent, and integer dict keys being parsed with int(text) directly (never through float). "
+    "Bit-exact float text and equality of reloaded "
     "content for arbitrary states are NOT decided.",
     "Assumes maybeAdd adds exactly the non-None keyword pairs and hasKeys is the closed-set test its body states (its "
     "shape is part of C15's gates).",
@@ -80,9 +83,10 @@ claim(
     "over the CFG + evaluation-order isinstance check + shape check of numeq",
     "Decides which fields == can see: every field that toJsonFragment serialises flows from both operands into a "
     "content-sensitive comparison not under `or`; iterating/sorting a dict compares keys only and does not count; zip counts "
-    "only with a length equality and a proper slice does not count as the whole field; the quantity whose name is serialised "
+    "only with a length equality, and a proper slice or one attribute of a child (`self.denominator.entries`) does not count as the whole field; the quantity whose name is serialised "
     "takes part in == and UserFcn.__eq__ depends on name and expr on every path; NaN-initialised fields go through numeq; isinstance(other, K) precedes any read of other; "
-    "__ne__ negates ==; numeq has the NaN/inf/guarded-widening-tolerance/exact-fallback shape. Equality of clones is NOT "
+    "__ne__ negates ==; numeq has the NaN/inf/guarded-widening-tolerance/exact-fallback shape (decision table over IEEE classes; every "
+    "positive-tolerance return is the symmetric `abs(x - y) <= bound`, through tolerance-derived locals as well). Equality of clones is NOT "
     "decided (needs their content).",
     "UserFcn equality of two Python functions by code object is taken as given.",
     "DESIGN.md section 3, C09",
@@ -91,8 +95,8 @@ claim(
     "C10",
     "must-dataflow of the type guard over the CFG + raising-comparison extraction + typestate for atomic rejection",
     "Decides for all 19 __add__/__iadd__: the type of `other` is established (isinstance with a failure edge that can only "
-    "raise, or an attribute only that class defines) before any store, child merge or construction; every structural "
-    "parameter is compared with a raising mismatch edge (scalars by value, fixed layouts by length/keys/thresholds, data-keyed "
+    "raise; reading an attribute does not count because Select forwards unknown attributes to its cut) before any store, child merge or construction; every structural "
+    "parameter is compared with a mismatch that raises on its own (not only together with another mismatch; scalars by value, fixed layouts by length/keys/thresholds, data-keyed "
     "containers by declared content type, which must survive zero/+/* in reloaded form - shared rule of C04); and that += "
     "changes no state before an operation that can still reject - the "
     "last clause fails on the 12 container classes, which are recorded as known findings. Run-time behaviour on concrete "
@@ -106,7 +110,9 @@ claim(
     "Narrow structural part: wrapper attributes installed, stripped and rebuilt are the same set and __dict__ is restored "
     "first; __reduce__ covers None/str/function and raises otherwise, its deserializers are module-level and restore every "
     "attribute __init__ sets; a rebuilt function gets a namespace of its own and the module's globals() are never written; every "
-    "self.x in the pickling helpers resolves; Select.__getattr__ cannot recurse. Fidelity of "
+    "self.x in the pickling helpers resolves; Select.__getattr__ cannot recurse; the globals shipped with a function quantity are selected "
+    "by membership only; the branches of Bin/CentrallyBin/Count._numpy selected by `transform is identity` (the unpickled clone takes the "
+    "general one) have the same effect (shared rules of C03). Fidelity of "
     "marshal-ed code and liveness/equality of the clone are NOT decided.",
     "pickle's protocol itself is trusted.",
     "DESIGN.md section 3, C11",
@@ -117,7 +123,7 @@ claim(
     "Decides the ordering clause on every path of all 19 fill(): after the node's own state changed, no user function, "
     "child fill, raising helper, explicit raise, computed index or operation on a not-yet-validated user value can follow; "
     "single-path containers fill at most one child per path (induction step for ancestors); the repository's own rollback "
-    "marker comment never follows an own-state store; conversion helpers that fill relies on as validators let the conversion error escape. Run-time exception behaviour is NOT executed; numpy paths are outside "
+    "marker comment never follows an own-state store; conversion helpers that fill relies on as validators let the conversion error escape; a string quantity is evaluated in a namespace built for the record alone (shared rule of C17). Run-time exception behaviour is NOT executed; numpy paths are outside "
     "the property.",
     "A user value counts as validated only by an isinstance test against numbers.Real or narrower (or a string type): "
     "math.isnan/isinf, arithmetic and comparisons on a validated numbers.Real, and membership/store on the node's own dict "
@@ -134,7 +140,8 @@ claim(
     "Categorize labels/entries iterate the same dict; None-or-number attributes (minBin/maxBin) are never used as truth values; 2-D grids/projections sum inner-most bins only; every edge expression "
     "(range(), isclose corrections) is the class's one edge function of its index; children are looked up by an index obtained "
     "from the class's own index methods, never from inline arithmetic on the query; views have no store effect on the "
-    "histogram and projections are built from fresh counters (shared rules of C06). Sub-range numerics (rounding, arange "
+    "histogram and projections are built from fresh counters (shared rules of C06); the four accessors decide the end-of-range "
+    "correction with one predicate; grid cells are addressed by positions of a dense index range or by lookup in the axis' key list. Sub-range numerics (rounding, arange "
     "lengths) and mpv are NOT decided.",
     "IrregularlyBin.fill routes inline, so there is no shared routing function to compare with for that class.",
     "DESIGN.md section 3, C13",
@@ -144,7 +151,8 @@ claim(
     "interprocedural alias propagation of the frame parameter + def-use export check + key-vocabulary agreement",
     "Narrow structural part: along the call graph from make_histograms the input frame and its plain aliases are never the "
     "target of a direct store; data-derived filler attributes read while histograms are built are exported by "
-    "get_features_specs and make_histograms forwards its specification parameters; every bin-spec key set produced anywhere "
+    "get_features_specs whole (not through a filtering comprehension) and make_histograms forwards its specification parameters; every "
+    "nesting primitive built in get_hist_bin receives the histogram built so far and the axis' quantity; every bin-spec key set produced anywhere "
     "is accepted by a branch of get_hist_bin; _fill_histogram fills through hist.fill.numpy; given specs are never overwritten; a "
     "function that takes an axis index reads its column list with that index; no freshly indexed Series is assigned into the frame. The homomorphism over row chunks, "
     "dtype inference and quantiles are run-time and NOT decided.",
@@ -173,7 +181,8 @@ claim(
     "Decides: every fill and fillnumpy calls the walk on a node dominating every own-state store, child fill and user call; "
     "`children` reads every stored slot fill/_numpy fill; in the walk the identity test and raise must not be "
     "control-dependent on the once-only flag the same traversal sets - this last clause fails on today's tree and is "
-    "recorded as a known finding. Detection on concrete trees is NOT executed.",
+    "recorded as a known finding; the once-only flag is stored after the recursion into the children; outside the _numpy methods every "
+    "use of `<x>._numpy` is dominated by a call of the walk. Detection on concrete trees is NOT executed.",
     "none beyond the class model.",
     "DESIGN.md section 3, C16",
 )
@@ -185,7 +194,8 @@ claim(
     "calls the base __call__ unchanged; serializable/cached/named never double-wrap, carry expr and name, test the subclass "
     "first, a second explicit name raises while a default name derived by the constructor does not block a first one; the memo "
     "key is stored only after the wrapped call returned; UserFcn.__call__ compiles once, passes arguments through, evaluates in a "
-    "namespace that is fresh per call and in which the record's fields take precedence over pre-loaded names. What string expressions "
+    "namespace that is fresh per call and in which the record's fields take precedence over pre-loaded names, and discovers the free "
+    "variable of a bare-datum expression as exactly (names of the code object) minus (names the namespace provides). What string expressions "
     "evaluate to is NOT decided.",
     "none beyond the class model.",
     "DESIGN.md section 3, C17",
@@ -217,7 +227,9 @@ claim(
     "(leaves); entries grows by the unmasked caller weight; no array that may alias the caller's inputs is written (with an "
     "embedded positive control); same slots visited; Average/Deviate batch merge == __add__ as rational functions; a one-row "
     "batch changes a Minimize/Maximize exactly as fill does for every region relative to the current extremum; Count adds (per-row "
-    "increment) x (number of rows) on every branch; Stack is also checked with descending thresholds. One known "
+    "increment) x (number of rows) on every branch; Stack is also checked with descending thresholds; the expression that reaches np.floor "
+    "in Bin/SparselyBin._numpy is the expression under math.floor in the scalar index method up to commutativity of + and * only (same "
+    "rounding). One known "
     "finding (Sum masks NaN rows). NOT decided: equality of floating-point reductions, key creation order, negative weights.",
     "numpy/bisect library summaries (np.histogram edge conventions, np.unique partition, int64 cast of NaN/inf) are stated "
     "assumptions; every numpy operation used must be in the closed vocabulary (else ANALYSIS-ERROR).",
@@ -232,7 +244,8 @@ claim(
     "and the partition child / collection children / Fraction.denominator / Bag cell receive that same weight; a fixed-length "
     "child sequence is never indexed by an unclamped float-derived index (scalar and vectorised); __mul__ implements the "
     "scaling table derived from fill; a numeric datum never makes fill raise; no node writes into the weight/data arrays its "
-    "siblings also use and child += other_child updates the child (shared rules of C03/C07). NOT decided: that floats adjacent to an edge land in the numerically right bin, and "
+    "siblings also use and child += other_child updates the child (shared rules of C03/C07); Bag keys are normalised so that equal data share "
+    "one key (shared rule of C02). NOT decided: that floats adjacent to an edge land in the numerically right bin, and "
     "sums up to rounding; invariants through + and += are the structural clauses of C01/C07.",
     "Same assumptions as C02/C03.",
     "DESIGN.md sections 2.4 and 3, C05",
